@@ -1,3 +1,45 @@
 import RainModel.Model.Blocks
+import RainModel.Lemmas.Blocks
+/-!
+C02 — piece/file geometry.  Property theorems only; helper lemmas live in `Lemmas/`.
+-/
 namespace Rain.Props.C02
+open Rain.Blocks
+
+/-- **calcBlocks_tiles.** For every non-empty section list and every block size `bs > 0`,
+`calculateBlocks(bs)` returns blocks that are sorted and pairwise disjoint, each of length
+`1..bs`, none covering a padding byte, whose union is exactly the non-padding byte positions
+of the piece (`Tiles`, the same predicate the check evaluates on the implementation's output). -/
+theorem calcBlocks_tiles (bs : Nat) (hbs : 0 < bs) (secs : List Sec) (hne : secs ≠ []) :
+    ∃ bl, calcBlocks bs secs = some bl ∧ Tiles bs secs bl = true := by
+  refine ⟨runWith CB.nextBlock bs secs, ?_, runWith_tiles bs hbs secs⟩
+  unfold calcBlocks
+  cases secs with
+  | nil => exact absurd rfl hne
+  | cons s r => rfl
+
+/-- No block is longer than the block size (16 KiB in production), restated on its own. -/
+theorem calcBlocks_block_le (bs : Nat) (hbs : 0 < bs) (secs : List Sec) (bl : List Block)
+    (h : calcBlocks bs secs = some bl) : ∀ b ∈ bl, 0 < b.l ∧ b.l ≤ bs := by
+  have hne : secs ≠ [] := by
+    intro e; subst e; simp [calcBlocks] at h
+  obtain ⟨bl', h', ht⟩ := calcBlocks_tiles bs hbs secs hne
+  rw [h] at h'
+  cases h'
+  intro b hb
+  unfold Tiles at ht
+  simp only [Bool.and_eq_true, List.all_eq_true, decide_eq_true_eq] at ht
+  have := ht.1 b hb
+  simpa using this
+
+/-- Non-vacuity: a padded, multi-section piece with a block size that does not divide it. -/
+example : calcBlocks 4 [⟨5, false⟩, ⟨2, true⟩, ⟨6, false⟩] =
+    some [⟨0, 4⟩, ⟨4, 1⟩, ⟨7, 4⟩, ⟨11, 2⟩] := by decide
+
+/-- The historical defect (fixed in /repo by 46bccae): the pre-fix cursor machine does *not*
+tile `[pad 2][data 3]`; the same witness is kept in `corpus/blocks/`. -/
+theorem calcBlocksStale_counterexample :
+    ∃ bl, calcBlocksStale 4 [⟨2, true⟩, ⟨3, false⟩] = some bl ∧ Tiles 4 [⟨2, true⟩, ⟨3, false⟩] bl = false := by
+  exact ⟨[⟨0, 3⟩], by decide, by decide⟩
+
 end Rain.Props.C02
